@@ -11,7 +11,8 @@ THEOREMS = ["Pomerol.Properties.C05." + t for t in (
     "N_operator", "Sz_operator")]
 RULE = ("a case = one operation of the real Pomerol::Operator algebra (normalize_and_insert on a raw monomial, "
         "*, +, -, scalar *, unary -, [,], {,}, ==, commutes, actRight, getMatrixElement, N, Sz) on polynomials with "
-        "dyadic coefficients; exhaustive over all raw monomials of length<=4 on <=2 modes (<=3 in thorough) acting "
+        "dyadic coefficients, compound assignments incl. R*=R / R+=R / R-=R, Fock spaces of 7..64 modes against the sparse "
+        "Jordan-Wigner action; exhaustive over all raw monomials of length<=4 on <=2 modes (<=3 in thorough) acting "
         "on all Fock states, random beyond; non-trivial = distinct case in which the normal ordering performs at "
         "least one swap/contraction or the operands are not both single monomials")
 TRUSTED = ["harness/opalg.cpp (derives from Operator to reach normalize_and_insert and the monomial map)",
